@@ -115,7 +115,7 @@ def roll_rules(chk):
             ln = None
             parts = cc[0].args[0].items
             if parts is not None:
-                lens = [repr(p.length()) for p in parts]
+                lens = [repr(p.length()) for p in parts if repr(p.length()) != "0"]          # a zero-length pad is no pad
                 want = {"forward": ["n", "S-1"], "backward": ["S-1", "n"]}.get(mode)
                 if want is not None:
                     chk.ob("R-ROLL", c + "{padding}", "%s: pads %s the record with steps-1 edge values" % (mode, "after" if mode == "forward" else "before"),
@@ -174,96 +174,147 @@ def _mode_branches(fi):
 
 
 def interp2d_rules(chk):
-    """Structural clauses of the table interpolation (bracketing by nearest node, clamping, convex weights)."""
+    """Structural clauses of the table interpolation (bracketing by nearest node, clamping, convex weights), read off the RETURNED
+    expression with every local substituted in statement order (the function is straight-line), so the names of the locals, the number
+    of temporaries and the spelling of the clamps (np.clip / np.maximum / np.minimum) do not matter."""
+    import copy
     P = chk.P
     q = GEN + "interp2d"
     fi = P.fn(q)
     c = "eqsig/fns/generic.py:interp2d"
-    nm = Normaliser()
-    assigns = [n for n in fi.node.body if isinstance(n, ast.Assign) and len(n.targets) == 1 and isinstance(n.targets[0], ast.Name)]
-    seq = [(n.targets[0].id, n) for n in assigns]
-    first = {}
-    for name, n in seq:
-        first.setdefault(name, n)
+    xq, xf, ftab = fi.params[:3]
+    env = {}
+
+    class Sub(ast.NodeTransformer):
+        def visit_Name(self, n):
+            if isinstance(n.ctx, ast.Load) and n.id in env:
+                return copy.deepcopy(env[n.id])
+            return n
+    ret = None
+    straight = True
+    for st in fi.node.body:
+        if isinstance(st, ast.Expr) and isinstance(st.value, ast.Constant):
+            continue
+        if isinstance(st, ast.Assign) and len(st.targets) == 1 and isinstance(st.targets[0], ast.Name):
+            env[st.targets[0].id] = Sub().visit(copy.deepcopy(st.value))
+        elif isinstance(st, ast.Return) and st.value is not None:
+            ret = Sub().visit(copy.deepcopy(st.value))
+            break
+        else:
+            straight = False
+            break
+    if ret is None or not straight:
+        chk.ob("R-I2D", c, "a straight-line body ending in one return", False, derived="not of that shape", inconclusive=True, loc=fi.loc())
+        return
+
     def callname(e):
         return ast.unparse(e.func).split(".")[-1] if isinstance(e, ast.Call) else None
-    # names: lower / upper bracket indices = the two names used to index both the table and the nodes
-    rets = [n for n in ast.walk(fi.node) if isinstance(n, ast.Return)]
-    env = straightline_env(fi.node.body, Normaliser(), exclude={"x", "xf", "f"})
-    ok_form = False
-    why = "no return"
-    if len(rets) == 1:
-        # inline only the weights: s1 = 1 - s0
-        loc_env = Normaliser()
-        for name, n in seq:
-            if name in ("s1",) and sum(1 for k, _ in seq if k == name) == 1:
-                loc_env.env[name] = loc_env.poly(n.value)
-        p = loc_env.poly(rets[0].value)
-        want = Poly.atom("f0") - Poly.atom("s0") * Poly.atom("f0") + Poly.atom("s0") * Poly.atom("f1")
-        ok_form = p == want
-        why = p.canon()
-    chk.ob("R-I2D", c + "{weights}", "result = (1 - s) * f[lower] + s * f[upper]: weights sum to one", ok_form, derived=why, loc=fi.loc(rets[0]) if rets else fi.loc())
-    # pairing: f0/a0 use the lower index, f1/a1 the upper index
-    idx = {}
-    for name in ("f0", "f1", "a0", "a1"):
-        n = first.get(name)
-        if n is not None and isinstance(n.value, ast.Subscript) and isinstance(n.value.value, ast.Name) and isinstance(n.value.slice, ast.Name):
-            idx[name] = (n.value.value.id, n.value.slice.id)
-    okp = len(idx) == 4 and idx["f0"][0] == idx["f1"][0] == "f" and idx["a0"][0] == idx["a1"][0] == "xf" and idx["f0"][1] == idx["a0"][1] and \
-        idx["f1"][1] == idx["a1"][1] and idx["f0"][1] != idx["f1"][1]
-    chk.ob("R-I2D", c + "{pairing}", "table rows and node abscissae are taken at the same (lower, upper) bracket indices", okp, derived="%s" % idx, loc=fi.loc())
-    lo, up = (idx["f0"][1], idx["f1"][1]) if okp else ("ind0", "ind1")
-    # weight: s = (x - a_lower) / (a_upper - a_lower) where the bracket is non-degenerate, 1 otherwise
-    s0 = first.get("s0")
-    oks = False
-    whys = "no definition of s0"
-    if s0 is not None and callname(s0.value) == "where" and len(s0.value.args) == 3:
-        cnd, tv, fv = s0.value.args
-        wenv = Normaliser()
-        for name, n in seq:
-            if name in ("denom", "denom_adj") and sum(1 for k, _ in seq if k == name) == 1:
-                if name == "denom_adj" and callname(n.value) == "clip":
-                    wenv.env[name] = wenv.poly(n.value.args[0])
-                else:
-                    wenv.env[name] = wenv.poly(n.value)
-        pt = wenv.poly(tv)
-        wantw = (Poly.atom("x") - Poly.atom("a0")) * (Poly.atom("a1") - Poly.atom("a0")).inverse()
-        oks = pt == wantw and isinstance(fv, ast.Constant) and fv.value == 1 and " > 0" in ast.unparse(cnd)
-        whys = "%s where %s else %s" % (pt.canon(), ast.unparse(cnd), ast.unparse(fv))
-    chk.ob("R-I2D", c + "{weight}", "s = (x - a_lower) / (a_upper - a_lower) on a non-degenerate bracket, 1 otherwise", oks, derived=whys,
-           loc=fi.loc(s0) if s0 is not None else fi.loc())
-    # bracketing: before clamping, upper = lower + 1, both selected by the same comparison with the nearest node
-    order = [name for name, _ in seq]
-    defs = {}
-    for name, n in seq:
-        defs.setdefault(name, []).append(n)
-    pre_lo, pre_up = (defs.get(lo) or [None])[0], (defs.get(up) or [None])[0]
-    okb = False
-    whyb = "bracket definitions not found"
-    if pre_lo is not None and pre_up is not None:
-        if callname(pre_lo.value) == "where" and callname(pre_up.value) == "where" and len(pre_lo.value.args) == 3 and len(pre_up.value.args) == 3:
-            c0, a0_, b0_ = pre_lo.value.args
-            c1, a1_, b1_ = pre_up.value.args
-            same_c = " ".join(ast.unparse(c0).split()) == " ".join(ast.unparse(c1).split())
-            d_a = nm.poly(a1_) - nm.poly(a0_)
-            d_b = nm.poly(b1_) - nm.poly(b0_)
-            okb = same_c and d_a == Poly.const(1) and d_b == Poly.const(1)
-            whyb = "same condition: %s; upper-lower = %s / %s" % (same_c, d_a.canon(), d_b.canon())
-        elif callname(pre_lo.value) == "where":
-            # upper = lower + 1 computed from the UNclamped lower index
-            pu = nm.poly(pre_up.value)
-            before_clip = seq.index((up, pre_up)) < min([k for k, (nme, n) in enumerate(seq) if nme == lo and n is not pre_lo] or [10 ** 6])
-            okb = pu == Poly.atom(lo) + Poly.const(1) and before_clip
-            whyb = "upper = %s, computed before the lower index is clamped: %s" % (pu.canon(), before_clip)
-    chk.ob("R-I2D", c + "{bracket}", "before clamping the upper index is the lower index + 1 around the nearest node", okb, derived=whyb,
-           loc=fi.loc(pre_up) if pre_up is not None else fi.loc(), detail="a query below the first node would be extrapolated instead of clamped" if not okb else None)
-    clips = {}
-    for name in (lo, up):
-        for n in defs.get(name, [])[1:]:
-            if callname(n.value) == "clip" and len(n.value.args) == 3:
-                clips[name] = (" ".join(ast.unparse(n.value.args[0]).split()), ast.unparse(n.value.args[1]), " ".join(ast.unparse(n.value.args[2]).split()))
-    okc = clips.get(lo) == (lo, "0", "None") and clips.get(up) == (up, "None", "len(xf) - 1")
-    chk.ob("R-I2D", c + "{clamping}", "lower index clamped at 0, upper index at len(xf) - 1 (each clamps itself)", okc, derived="%s" % clips, loc=fi.loc())
+
+    class Unclip(ast.NodeTransformer):            # np.clip(E, tiny, None) guards a division: E itself wherever E > 0
+        def visit_Call(self, n):
+            self.generic_visit(n)
+            if callname(n) == "clip" and len(n.args) == 3 and isinstance(n.args[1], ast.Constant) and isinstance(n.args[1].value, float) and \
+                    0 < n.args[1].value <= 1e-6 and isinstance(n.args[2], ast.Constant) and n.args[2].value is None:
+                return n.args[0]
+            return n
+    nm = Normaliser()
+    p = nm.poly(ret)
+    # the two table rows: atoms f[<index>]
+    rows = sorted(a for a in p.atoms() if a.startswith(ftab + "["))
+    rownodes = {}
+    for n in ast.walk(ret):
+        if isinstance(n, ast.Subscript) and isinstance(n.value, ast.Name) and n.value.id == ftab:
+            rownodes.setdefault(nm.opaque(n), n)
+    if len(rows) != 2 or set(rows) != set(rownodes):
+        chk.ob("R-I2D", c + "{weights}", "result = w0 * f[lower] + w1 * f[upper]", False, derived="%d table rows in the returned expression" % len(rows),
+               inconclusive=len(rows) == 0, loc=fi.loc())
+        return
+
+    def coeff(poly, atom):
+        d = {}
+        for m, co in poly.t.items():
+            dm = dict(m)
+            if dm.get(atom) == 1:
+                rest = tuple((a_, e) for a_, e in m if a_ != atom)
+                d[rest] = d.get(rest, 0) + co
+            elif atom in dm:
+                return None
+        return Poly(d)
+    w = {r_: coeff(p, r_) for r_ in rows}
+    lin = all(v is not None for v in w.values()) and all(not (set(m_ for m_, _ in m) & set(rows)) or sum(1 for a_, _ in m if a_ in rows) == 1 for m in p.t)
+    oksum = lin and (w[rows[0]] + w[rows[1]]) == Poly.const(1)
+    chk.ob("R-I2D", c + "{weights}", "result = w0 * f[i0] + w1 * f[i1], linear in the two rows, weights sum to one", oksum,
+           derived="weights %s" % {k: (v.canon() if v is not None else None) for k, v in w.items()}, loc=fi.loc())
+    if not oksum:
+        return
+    # the weight that is an np.where(D > 0, (x - a_lower) / D, 1) belongs to the UPPER row
+    whs = {}
+    for n in ast.walk(ret):
+        if callname(n) == "where" and len(n.args) == 3 and isinstance(n.args[2], ast.Constant) and n.args[2].value == 1:
+            whs.setdefault(nm.opaque(n), n)
+    upper = [r_ for r_ in rows if any(w[r_] == Poly.atom(k) for k in whs)]
+    if len(upper) != 1 or len(whs) != 1:
+        chk.ob("R-I2D", c + "{weight}", "one weight is np.where(span > 0, (x - a_lower) / span, 1)", False, derived="%d such np.where, %d row(s) weighted by it"
+               % (len(whs), len(upper)), loc=fi.loc())
+        return
+    up_row = upper[0]
+    lo_row = [r_ for r_ in rows if r_ != up_row][0]
+    wnode = list(whs.values())[0]
+    cnd, tv, _ = wnode.args
+    i_lo, i_up = rownodes[lo_row].slice, rownodes[up_row].slice
+    A0 = nm.opaque(ast.Subscript(value=ast.Name(id=xf, ctx=ast.Load()), slice=i_lo, ctx=ast.Load()))
+    A1 = nm.opaque(ast.Subscript(value=ast.Name(id=xf, ctx=ast.Load()), slice=i_up, ctx=ast.Load()))
+    span = Poly.atom(A1) - Poly.atom(A0)
+    okc = isinstance(cnd, ast.Compare) and len(cnd.ops) == 1 and (
+        (isinstance(cnd.ops[0], ast.Gt) and nm.poly(cnd.left) == span and nm.poly(cnd.comparators[0]) == Poly.const(0)) or
+        (isinstance(cnd.ops[0], ast.Lt) and nm.poly(cnd.comparators[0]) == span and nm.poly(cnd.left) == Poly.const(0)))
+    ptv = nm.poly(Unclip().visit(copy.deepcopy(tv)))
+    okw = ptv == (Poly.atom(xq) - Poly.atom(A0)) * span.inverse()
+    chk.ob("R-I2D", c + "{weight}", "s = (x - a_lower) / (a_upper - a_lower) on a non-degenerate bracket (a_upper - a_lower > 0), 1 otherwise; nodes "
+           "and rows taken at the same bracket indices", okc and okw, derived="%s where %s else 1" % (ptv.canon()[:160], " ".join(ast.unparse(cnd).split())[:120]),
+           loc=fi.loc())
+    chk.ob("R-I2D", c + "{pairing}", "the row weighted by s is the upper one (its node is a_upper), the other row has weight 1 - s", okc and okw,
+           derived="lower row %s, upper row %s" % (lo_row[:60], up_row[:60]), loc=fi.loc(), nontrivial=False)
+    # bracket and clamping: lower = max(where(C, N-1, N), 0), upper = min(where(C, N, N+1), len(xf)-1), C: xf[N] > x, N nearest node
+    def unclamp(e, kind):
+        if isinstance(e, ast.Call):
+            cn = callname(e)
+            a_ = e.args
+            if cn == "clip" and len(a_) == 3:
+                lo_c, hi_c = a_[1], a_[2]
+                none = lambda z: isinstance(z, ast.Constant) and z.value is None
+                if kind == "lo" and none(hi_c) and nm.poly(lo_c) == Poly.const(0):
+                    return a_[0], True
+                if kind == "hi" and none(lo_c) and nm.poly(hi_c) == nm.poly(ast.parse("len(%s) - 1" % xf, mode="eval").body):
+                    return a_[0], True
+            if cn == ("maximum" if kind == "lo" else "minimum") and len(a_) == 2:
+                bound = Poly.const(0) if kind == "lo" else nm.poly(ast.parse("len(%s) - 1" % xf, mode="eval").body)
+                for k in (0, 1):
+                    if nm.poly(a_[1 - k]) == bound:
+                        return a_[k], True
+        return e, False
+    e_lo, cl_lo = unclamp(i_lo, "lo")
+    e_up, cl_up = unclamp(i_up, "hi")
+    chk.ob("R-I2D", c + "{clamping}", "lower index clamped at 0, upper index at len(xf) - 1 (each clamps itself)", cl_lo and cl_up,
+           derived="lower clamped at 0: %s; upper clamped at len-1: %s" % (cl_lo, cl_up), loc=fi.loc())
+    okb, whyb = False, "bracket indices are not two np.where selections"
+    if callname(e_lo) == "where" and callname(e_up) == "where" and len(e_lo.args) == 3 and len(e_up.args) == 3:
+        c0, a0_, b0_ = e_lo.args
+        c1, a1_, b1_ = e_up.args
+        same_c = ast.dump(c0) == ast.dump(c1)
+        N = nm.poly(b0_)
+        near = N.is_monomial() and len(N.atoms()) == 1 and "argmin(" in list(N.atoms())[0] and "abs(" in list(N.atoms())[0]
+        shape_ok = nm.poly(a0_) == N - Poly.const(1) and nm.poly(a1_) == N and nm.poly(b1_) == N + Poly.const(1)
+        cond_ok = False
+        if isinstance(c0, ast.Compare) and len(c0.ops) == 1:
+            node_at = nm.opaque(ast.Subscript(value=ast.Name(id=xf, ctx=ast.Load()), slice=b0_, ctx=ast.Load()))
+            l_, r_ = nm.poly(c0.left), nm.poly(c0.comparators[0])
+            cond_ok = (isinstance(c0.ops[0], ast.Gt) and l_ == Poly.atom(node_at) and r_ == Poly.atom(xq)) or \
+                      (isinstance(c0.ops[0], ast.Lt) and r_ == Poly.atom(node_at) and l_ == Poly.atom(xq))
+        okb = same_c and near and shape_ok and cond_ok
+        whyb = "same condition: %s; nearest node by argmin|x - xf|: %s; (N-1, N) / (N, N+1): %s; condition xf[N] > x: %s" % (same_c, near, shape_ok, cond_ok)
+    chk.ob("R-I2D", c + "{bracket}", "before clamping the bracket is (N-1, N) when the nearest node N lies above the query, (N, N+1) otherwise", okb, derived=whyb,
+           loc=fi.loc(), detail="a query below the first node would be extrapolated instead of clamped" if not okb else None)
     r = analyse(chk, q, lambda I, st, fi: dict(x=AV(kind=K_ARRAY, dtype="real", shape=(LinExpr("Q"),), origin=frozenset(["p:x"]), tags=frozenset(["p:x"])),
                                                xf=AV(kind=K_ARRAY, dtype="real", shape=(LinExpr("X"),), mono=frozenset([0]), origin=frozenset(["p:xf"]),
                                                      tags=frozenset(["p:xf"])),
@@ -392,27 +443,56 @@ def nzs_rules(chk):
         p = Normaliser().poly(fin[0].value)
         want = Poly.atom("c_h") * Poly.atom("z_factor") * Poly.atom("n_factor") * Poly.atom("r_factor")
         chk.ob("R-NZS-SIB", c + ":sd_nzs{factors}", "sd = (C_h*T^2) * Z * N * R", p == want, derived=p.canon(), loc=sd.loc(fin[0]))
-    # t_eff corner constants
+    # t_eff corner constants: per site class (t_c, d_c), written as an if/elif chain on site_class or as a lookup table indexed by it
+    import copy
     te = P.fn(DS + "t_eff")
+    per_cls = {}
     for n in ast.walk(te.node):
-        if isinstance(n, ast.If) and isinstance(n.test, ast.Compare) and isinstance(n.test.left, ast.Name) and n.test.left.id == "site_class":
+        if isinstance(n, ast.If) and isinstance(n.test, ast.Compare) and isinstance(n.test.left, ast.Name) and n.test.left.id == "site_class" and \
+                isinstance(n.test.comparators[0], ast.Constant) and isinstance(n.test.ops[0], ast.Eq):
             node = n
             while True:
                 cls = node.test.comparators[0].value
                 asg = {x.targets[0].id: x.value for x in node.body if isinstance(x, ast.Assign) and isinstance(x.targets[0], ast.Name)}
-                if cls in tch and "t_c" in asg and "d_c" in asg:
-                    last = tch[cls][-1][2]       # e.g. 3.96 / tt ** 2
-                    lastp = Normaliser().poly(last)
-                    coef = list(lastp.t.values())[0]
-                    dcp = Normaliser().poly(asg["d_c"])
-                    dcoef = list(dcp.t.values())[0]
-                    tc = asg["t_c"].value if isinstance(asg["t_c"], ast.Constant) else None
-                    lastbp = [v for op, v, _ in tch[cls] if v is not None][-1]
-                    chk.ob("R-NZS-SIB", c + ":t_eff{class %s}" % cls, "corner constant = last-interval coefficient; corner period = last breakpoint",
-                           dcoef * 4 == coef and tc == lastbp and dcp.degree_of("pi") == -2 and dcp.degree_of("gravity") == 1,
-                           derived="d_c coefficient %s (*4 = %s) vs %s; t_c %s vs %s" % (dcoef, dcoef * 4, coef, tc, lastbp), loc=te.loc(node))
-                if len(node.orelse) == 1 and isinstance(node.orelse[0], ast.If):
+                if "t_c" in asg and "d_c" in asg:
+                    per_cls[cls] = (asg["t_c"], asg["d_c"], node)
+                if len(node.orelse) == 1 and isinstance(node.orelse[0], ast.If) and isinstance(node.orelse[0].test, ast.Compare) and \
+                        isinstance(node.orelse[0].test.comparators[0], ast.Constant):
                     node = node.orelse[0]
                 else:
                     break
             break
+    if not per_cls:
+        once = {}
+        for n in ast.walk(te.node):
+            if isinstance(n, ast.Assign) and len(n.targets) == 1 and isinstance(n.targets[0], ast.Name):
+                once.setdefault(n.targets[0].id, []).append(n.value)
+        tables = {k: v[0] for k, v in once.items() if len(v) == 1 and isinstance(v[0], ast.Dict) and
+                  all(isinstance(x, ast.Constant) and isinstance(x.value, str) for x in v[0].keys)}
+        if len(once.get("t_c", [])) == 1 and len(once.get("d_c", [])) == 1 and tables:
+            for cls in sorted({x.value for t in tables.values() for x in t.keys}):
+                class Look(ast.NodeTransformer):
+                    def visit_Subscript(self, n_):
+                        self.generic_visit(n_)
+                        if isinstance(n_.value, ast.Name) and n_.value.id in tables and isinstance(n_.slice, ast.Name) and n_.slice.id == "site_class":
+                            t = tables[n_.value.id]
+                            for k_, v_ in zip(t.keys, t.values):
+                                if k_.value == cls:
+                                    return copy.deepcopy(v_)
+                        return n_
+                per_cls[cls] = (once["t_c"][0], Look().visit(copy.deepcopy(once["d_c"][0])), te.node)
+    if not per_cls:
+        chk.ob("R-NZS-SIB", c + ":t_eff", "per-class corner constants as an if/elif chain or a lookup table on site_class", False,
+               derived="neither form recognised", inconclusive=True, loc=te.loc())
+    for cls, (tcv, dcv, node) in sorted(per_cls.items()):
+        if cls in tch:
+            last = tch[cls][-1][2]       # e.g. 3.96 / tt ** 2
+            lastp = Normaliser().poly(last)
+            coef = list(lastp.t.values())[0]
+            dcp = Normaliser().poly(dcv)
+            dcoef = list(dcp.t.values())[0]
+            tc = tcv.value if isinstance(tcv, ast.Constant) else None
+            lastbp = [v for op, v, _ in tch[cls] if v is not None][-1]
+            chk.ob("R-NZS-SIB", c + ":t_eff{class %s}" % cls, "corner constant = last-interval coefficient; corner period = last breakpoint",
+                   dcoef * 4 == coef and tc == lastbp and dcp.degree_of("pi") == -2 and dcp.degree_of("gravity") == 1,
+                   derived="d_c coefficient %s (*4 = %s) vs %s; t_c %s vs %s" % (dcoef, dcoef * 4, coef, tc, lastbp), loc=te.loc(node))
